@@ -26,13 +26,15 @@ Limit == 1048576           \* values beyond this leave the exactly-modelled frag
 (* ---------------- program geometry ---------------- *)
 Prog(s)      == s.prog                 \* the program is part of the machine state
 NL(s)        == Len(Prog(s).lines)
-Stmts(s, li) == Prog(s).lines[li].s
+\* line index 0 denotes the DIRECT line s.dl (a statement sequence typed at the prompt); position <<0, i>> is its i-th statement
+Stmts(s, li) == IF li = 0 THEN s.dl ELSE Prog(s).lines[li].s
 IsIntVar(s, v) == \E i \in 1..Len(Prog(s).ints) : Prog(s).ints[i] = v
-Norm(s, p)   == IF p[1] <= NL(s) /\ p[2] > Len(Stmts(s, p[1])) THEN <<p[1] + 1, 1>> ELSE p
+Norm(s, p)   == IF p[1] >= 1 /\ p[1] <= NL(s) /\ p[2] > Len(Stmts(s, p[1])) THEN <<p[1] + 1, 1>> ELSE p
 After(s, p)  == Norm(s, <<p[1], p[2] + 1>>)
-NextLine(p)  == <<p[1] + 1, 1>>
-AtEnd(s, p)  == p[1] > NL(s)
-LineNo(s, p) == IF p[1] > NL(s) THEN 65536 ELSE Prog(s).lines[p[1]].n
+NextLine(p)  == IF p[1] = 0 THEN <<0, 100000>> ELSE <<p[1] + 1, 1>>       \* rest of the direct line is skipped
+AtEnd(s, p)  == p[1] > NL(s) \/ (p[1] = 0 /\ p[2] > Len(s.dl))
+InProgram(s) == s.pc[1] # 0                                                  \* "run mode": the pointer is in the program
+LineNo(s, p) == IF p[1] = 0 THEN 65535 ELSE IF p[1] > NL(s) THEN 65536 ELSE Prog(s).lines[p[1]].n
 LineIdx(s, n) == IF \E i \in 1..NL(s) : Prog(s).lines[i].n = n
                  THEN CHOOSE i \in 1..NL(s) : Prog(s).lines[i].n = n ELSE 0
 StmtAt(s, p) == Stmts(s, p[1])[p[2]]
@@ -89,7 +91,7 @@ NoTraps == [enabled |-> {}, stopped |-> [k \in TrapIds |-> FALSE],
 
 \* state at RUN: everything cleared, pointer at the first line
 Start(p) ==
-    [prog |-> p, pc |-> <<1, 1>>, cur |-> <<1, 1>>, run |-> TRUE,
+    [prog |-> p, dl |-> <<>>, pc |-> <<1, 1>>, cur |-> <<1, 1>>, run |-> TRUE,
      vars |-> [i \in 1..Len(p.vars) |-> 0],
      fors |-> <<>>, whiles |-> <<>>, gosubs |-> <<>>, dp |-> 1,
      onerr |-> 0, inh |-> FALSE, resume |-> None, err |-> 0, erl |-> 0,
@@ -109,7 +111,9 @@ RaiseAt(s, c, line) ==
     LET s1 == [s EXCEPT !.err = c, !.erl = line] IN
     IF s.onerr # 0 /\ ~s.inh
     THEN [s1 EXCEPT !.resume = s.cur, !.pc = <<LineIdx(s, s.onerr), 1>>, !.inh = TRUE, !.susp = TRUE]
-    ELSE [s1 EXCEPT !.inh = FALSE, !.run = FALSE, !.stat = [k |-> "error", code |-> c, line |-> line]]
+    ELSE [s1 EXCEPT !.inh = FALSE, !.run = FALSE,
+                    \* an error of a direct-mode statement is reported without a line number (-2)
+                    !.stat = [k |-> "error", code |-> c, line |-> IF line = 65535 THEN -2 ELSE line]]
 Raise(s, c) == RaiseAt(s, c, LineNo(s, s.cur))
 Frag(s) == [s EXCEPT !.frag = TRUE, !.run = FALSE, !.stat = [k |-> "fragment", code |-> 0, line |-> 0]]
 
@@ -299,7 +303,8 @@ DoOnErr(s, st) ==
     IF st.n # 0 /\ LineIdx(s, st.n) = 0 THEN Raise(s, 8) ELSE
     LET s1 == [s EXCEPT !.onerr = st.n] IN
     IF st.n = 0 /\ s.inh
-    THEN [s1 EXCEPT !.inh = FALSE, !.run = FALSE, !.stat = [k |-> "error", code |-> s.err, line |-> s.erl]]
+    THEN [s1 EXCEPT !.inh = FALSE, !.run = FALSE,
+                    !.stat = [k |-> "error", code |-> s.err, line |-> IF s.erl = 65535 THEN -2 ELSE s.erl]]
     ELSE Adv(s1)
 
 DoResume(s, st) ==
@@ -345,7 +350,8 @@ DoOnTrap(s, st) ==
 \* environment: event k occurs at a statement boundary; it is recorded iff the program runs and the trap is ON or STOPped
 Occur(s, k) == IF s.run /\ k \in s.traps.enabled THEN [s EXCEPT !.traps.triggered[k] = TRUE] ELSE s
 
-Dispatchable(s) == IF ~s.run \/ s.susp THEN {}
+\* traps are dispatched only while the pointer is in the program (not while a direct line executes)
+Dispatchable(s) == IF ~s.run \/ s.susp \/ ~InProgram(s) THEN {}
                    ELSE {k \in s.traps.enabled : s.traps.triggered[k] /\ ~s.traps.stopped[k] /\ s.traps.gosub[k] # 0}
 Dispatch1(s, k) ==
     [s EXCEPT !.traps.triggered[k] = FALSE, !.traps.stopped[k] = TRUE,
@@ -374,10 +380,17 @@ DoRun(s, st) ==
     ELSE IF LineIdx(s, st.n) = 0 THEN RaiseAt(s1, 8, -1)      \* the line reported for a RUN to a missing line is left open
     ELSE Jump(s1, st.n)
 
+\* a line typed at the prompt after the program has stopped: the machine keeps its state (variables, armed error
+\* trap, event traps, stacks) and executes the statements of the direct line
+StartDirect(s, dl) == [s EXCEPT !.dl = dl, !.pc = <<0, 1>>, !.cur = <<0, 1>>, !.run = TRUE, !.out = <<>>,
+                                !.stat = [k |-> "run", code |-> 0, line |-> 0]]
+
 (* ---------------- one statement ---------------- *)
 Exec(s0) ==
     LET p == s0.pc IN
-    IF AtEnd(s0, p)
+    IF AtEnd(s0, p) /\ p[1] = 0                 \* the direct line is finished: back to the prompt
+    THEN [s0 EXCEPT !.run = FALSE, !.stat = [k |-> "end", code |-> 0, line |-> 0]]   \* (not a logged boundary: out is kept)
+    ELSE IF AtEnd(s0, p)
     THEN IF s0.resume # None
          THEN [s0 EXCEPT !.run = FALSE, !.out = <<>>, !.err = 19, !.inh = FALSE, !.stat = [k |-> "error", code |-> 19, line |-> -1]]
          ELSE [s0 EXCEPT !.run = FALSE, !.out = <<>>, !.stat = [k |-> "end", code |-> 0, line |-> 0]]
